@@ -390,7 +390,14 @@ func c17(r *core.Run) {
 		}
 	}
 	// fetch: element-0 form
-	if fetch := methodNamed(p, "", "Mux", "fetch"); fetch != nil {
+	fetch := methodNamed(p, "", "Mux", "fetch")
+	if fetch == nil {
+		// by role: the registration walk of the mux, whatever it is called
+		if ro := resolveMuxRolesFor(r, "G1"); ro != nil {
+			fetch = ro.fetch
+		}
+	}
+	if fetch != nil {
 		for _, b := range fetch.Blocks {
 			for _, in := range b.Instrs {
 				bo, ok := in.(*ssa.BinOp)
